@@ -17,10 +17,11 @@ META = {
     "explanation": "R14.tables: str_to_* extracted from MIR as literal -> variant tables (the eq-chain on to_lowercase(param)); keys lower-case, table injective, "
                    "get_all_* = all enum variants = image of the table; every name in the docs tables and in Solstat.toml is a key. R14.unknown: the fall-through arm "
                    "diverges and Opts::new dominates every analysis call and generate_report in main. R14.select: with --toml each list is the image of the toml list under "
-                   "the table (map over the whole list, collect), without it get_all_*. R14.fields: every field of the deserialised config is read. R14.path: Opts.path = "
+                   "the table (map over the whole list, collect), without it get_all_*. R14.fields: every field of the deserialised config is read. R14.applied: main passes opts.path and each category's own list unmodified to that category's walk, which applies every listed "
+                   "pattern to every file (C03's per-file obligations, inherited). R14.path: Opts.path = "
                    "--path if given, else the toml's path if a toml was given, else ./contracts.",
     "assumptions": ["clap's argument parsing and toml/serde deserialisation are trusted", "str::to_lowercase lower-cases ASCII letters (std contract)"],
-    "floors": {"R14.tables": 60, "R14.unknown": 4, "R14.select": 6, "R14.fields": 4, "R14.path": 3},
+    "floors": {"R14.tables": 60, "R14.unknown": 4, "R14.select": 6, "R14.fields": 4, "R14.path": 3, "R14.applied": 4},
 }
 
 DOCS = {"optimizations": "docs/identified-optimizations.md", "vulnerabilities": "docs/identified-vulnerabilities.md", "qa": "docs/identified-quality-assurance.md"}
@@ -115,6 +116,23 @@ def run(ctx, crate):
     ok = len(oc) == 1 and len(later) == 4 and all(main.dominates(oc[0].bb, s.bb) and oc[0].bb != s.bb for s in later)
     obs.append(Ob("R14.unknown", "main", "options are resolved before any analysis or report", ok, expected="Opts::new dominates analyze_dir x3 and generate_report",
                   found=[s.path for s in later]))
+    # ---------------- R14.applied: what was selected is what is analysed: main hands each category's list and the directory of the resolved options,
+    # unmodified, to that category's walk, and the walk applies every listed pattern to every file (C03's obligations on the per-file loop)
+    from rules import depend
+    for cat, fld in (("optimizations", "optimizations"), ("vulnerabilities", "vulnerabilities"), ("qa", "qa")):
+        calls = [s for s in ms if s.path == "analyzer::%s::analyze_dir" % cat]
+        ok_h = False
+        found_h = None
+        if len(calls) == 1 and len(oc) == 1 and len(calls[0].args) == 2:
+            a0, a1 = calls[0].args
+            ok_h = a0[0] == "proj" and a0[1] == oc[0].result and a0[2][0] == "f" and a0[2][2] == "path" and \
+                a1[0] == "proj" and a1[1] == oc[0].result and a1[2][0] == "f" and a1[2][2] == fld
+            found_h = [show(a0)[:60], show(a1)[:60]]
+        obs.append(Ob("R14.applied", "main", "%s: the walk receives the resolved directory and exactly the selected list" % cat, ok_h,
+                      expected="analyze_dir(opts.path, opts.%s)" % fld, found=found_h, example="a configuration listing two patterns in the opposite order"))
+    obs.append(depend.inherited(ctx, crate, "R14.applied", "analyze_dir x3", "every listed pattern is applied to every analysed file, whatever the order of the list "
+                                "(C03's obligations on the per-file loop)", "C03", lambda o: o.rule in ("R03.perfile", "R03.loops"),
+                                example="optimizations = [\"safe_math_pre_080\", \"address_zero\"] versus the reverse order"))
     # ---------------- R14.select / R14.fields / R14.path
     sites = S.call_sites(on)
     ret = on.val_local(0)
